@@ -50,7 +50,7 @@ def cap_call(acc, repeats, seed):
 
 def check_graph(r, k, G, seeds, reps, info=None, single=True):
     info = classify(G) if info is None else info
-    acc = U.A(G)
+    acc = U.A_reuse(G)
     case0 = {'k': k, 'arcs': [(u, j) for u in range(len(G)) for j in range(4) if G[u][j] >= 0]}
     r.states += 1
     pre = 'C17|'
